@@ -17,7 +17,7 @@
  *   X fn                          sched_gsmtime_execute(fn)
  *   Z                             sched_gsmtime_reset()
  * Callbacks are the driver functions cb1..cb4; they log (cb, p1, p2, p3) and
- * report success. */
+ * report success (cb1, cb2: 0; cb3, cb4: a positive value). */
 #include <stdio.h>
 #include <stdlib.h>
 #include <string.h>
@@ -61,8 +61,10 @@ static int logcb(int id, uint8_t p1, uint8_t p2, uint16_t p3)
 }
 static int cb1(uint8_t p1, uint8_t p2, uint16_t p3) { return logcb(1, p1, p2, p3); }
 static int cb2(uint8_t p1, uint8_t p2, uint16_t p3) { return logcb(2, p1, p2, p3); }
-static int cb3(uint8_t p1, uint8_t p2, uint16_t p3) { return logcb(3, p1, p2, p3); }
-static int cb4(uint8_t p1, uint8_t p2, uint16_t p3) { return logcb(4, p1, p2, p3); }
+/* success is "not negative" (tdma_sched_execute() treats rc < 0 as the error): two of the
+ * callbacks report success with a positive value */
+static int cb3(uint8_t p1, uint8_t p2, uint16_t p3) { logcb(3, p1, p2, p3); return 1; }
+static int cb4(uint8_t p1, uint8_t p2, uint16_t p3) { logcb(4, p1, p2, p3); return 3; }
 static tdma_sched_cb *const cbs[5] = { NULL, cb1, cb2, cb3, cb4 };
 static tdma_sched_cb *cb_by_index(long i) { return (i >= 1 && i <= 4) ? cbs[i] : cb1; }
 
